@@ -121,6 +121,9 @@ pub fn deploy_staged(cfg: &Cfg, stage: Option<u8>) -> Result<Deployed, String> {
     }
     for u in cfg.users_list() {
         w.credit(&u, DENOM, cfg.user_funds.u128());
+        // pocket money in the other coins (never needed by a well-formed message)
+        w.credit(&u, REWARD_DENOM, 1_000_000);
+        w.credit(&u, EXTRA_SWAP_DENOM, 1_000_000);
     }
     w.credit(INTRUDER, DENOM, cfg.user_funds.u128());
     let mut rejected = vec![];
